@@ -335,8 +335,12 @@ def prepare_layout(res, tier, rng):
             # card level on each block of the real splitter
             from MIP.mip.blocks import get_block_positions
             try:
-                dres = get_block_positions(text)
+                with I.time_limit(3):
+                    dres = get_block_positions(text)
             except (ValueError, IndexError):
+                continue
+            except I.ImplHang:
+                I.note_hang(('get_block_positions', text[:200]))
                 continue
             for key, split in (('c', 'cell_split'), ('s', 'surf_split'),
                                ('d', 'data_split')):
@@ -392,10 +396,14 @@ def convert(text, args=()):
     '''impl.convert under a time limit (a front end that stops advancing must
     be reported, not hang the check).'''
     try:
-        with I.time_limit(60):
-            return impl.convert(text, args, keep_stdout=False)
+        with I.time_limit(30):
+            conv = impl.convert(text, args, keep_stdout=False)
     except I.ImplHang:
+        conv = _Hung()
+    if conv.exc in ('Hang', 'ImplHang'):    # impl.convert may catch it itself
+        I.note_hang(('convert', text[:200]))
         return _Hung()
+    return conv
 
 
 def fortran_only(tok):
@@ -566,7 +574,91 @@ def run_witnesses(res):
         res.count('witness:' + label + (':same' if ok else ':differs'))
 
 
+# corpus: hand-written rewrites of one deck, each of a kind the generators
+# also produce, kept as fixed regression cases (all must leave the output
+# unchanged)
+CORPUS_BASE = ('''corpus
+1 1 -1.0 -1 imp:n=1
+2 0 1 -2 fill=1 (1 0 0) imp:n=1
+3 0 -3 u=1 imp:n=1
+4 0 3 u=1 imp:n=1
+5 0 2 imp:n=0
+
+1 so 5.0
+2 so 9.0
+3 so 1.0
+
+m1 1001 2 8016 1.0
+''')
+CORPUS = [
+    ('message block', lambda t: 'message: outp=x\n\n' + t),
+    ('message block, upper case, two lines', lambda t: 'MESSAGE: outp=x\n     runtpe=r\n\n' + t),
+    ('upper case', lambda t: t.upper()),
+    ('equal signs dropped', lambda t: t.replace('imp:n=1', 'imp:n 1').replace('u=1', 'u 1').replace('fill=1', 'fill 1')),
+    ('blanks around equal signs', lambda t: t.replace('imp:n=1', 'imp:n = 1').replace('u=1', 'u = 1')),
+    ('blanks around the colon of imp:n', lambda t: t.replace('imp:n=1', 'imp : n=1')),
+    ('& then comment line then continuation', lambda t: t.replace('1 so 5.0', '1 so &\nc hello\n5.0')),
+    ('two & continuations with a comment between', lambda t: t.replace('1 1 -1.0 -1 imp:n=1', '1 1 -1.0 &\nc x\n -1 &\nimp:n=1')),
+    ('density 1.0d0', lambda t: t.replace('-1.0 -1', '-1.0d0 -1')),
+    ('density -10.0-1', lambda t: t.replace('-1.0 -1', '-10.0-1 -1')),
+    ('density -1.00e0', lambda t: t.replace('-1.0 -1', '-1.00e0 -1')),
+    ('density -.1+1', lambda t: t.replace('-1.0 -1', '-.1+1 -1')),
+    ('fraction 1.0+0', lambda t: t.replace('8016 1.0', '8016 1.0+0')),
+    ('fraction .10d1', lambda t: t.replace('8016 1.0', '8016 .10d1')),
+    ('material number 01', lambda t: t.replace('1 1 -1.0', '1 01 -1.0')),
+    ('tab continuation', lambda t: t.replace('1 so 5.0', '1 so\n\t5.0')),
+    ('4 blanks + tab continuation', lambda t: t.replace('1 so 5.0', '1 so\n    \t5.0')),
+    ('$ trailer', lambda t: t.replace('1 so 5.0', '1 so 5.0 $ 7')),
+    ('$ trailer without blank', lambda t: t.replace('1 so 5.0', '1 so 5.0$ 7')),
+    ('$ trailer holding an &', lambda t: t.replace('1 so 5.0', '1 so 5.0 $ 7 &')),
+    ('comment inside a card', lambda t: t.replace('1 so 5.0', '1 so\nc 9\n     5.0')),
+    ('bare C comment inside a card', lambda t: t.replace('1 so 5.0', '1 so\nC\n     5.0')),
+    ('indented surface card', lambda t: t.replace('1 so 5.0', '    1 so 5.0')),
+    ('indented cell card', lambda t: t.replace('1 1 -1.0', '   1 1 -1.0')),
+    ('indented data card', lambda t: t.replace('m1 1001', '  m1 1001')),
+    ('CRLF line ends', lambda t: t.replace('\n', '\r\n')),
+    ('blanks on the delimiter lines', lambda t: t.replace('\n\n', '\n   \n')),
+    ('two blank delimiter lines... only at the end', lambda t: t + '\n\n'),
+    ('blanks inside the parentheses', lambda t: t.replace('(1 0 0)', '( 1 0 0 )')),
+    ('no blank before the parenthesis', lambda t: t.replace('fill=1 (1 0 0)', 'fill=1(1 0 0)')),
+    ('IMP data card', lambda t: t.replace(' imp:n=1', '').replace(' imp:n=0', '') + 'imp:n 1 1 1 1 0\n'),
+    ('IMP data card 3r', lambda t: t.replace(' imp:n=1', '').replace(' imp:n=0', '') + 'imp:n 1 3r 0\n'),
+    ('IMP data card R R R upper case', lambda t: t.replace(' imp:n=1', '').replace(' imp:n=0', '') + 'IMP:N 1 R R R 0\n'),
+    ('IMP data card 1 2i 1 0 -- constant interpolation', lambda t: t.replace(' imp:n=1', '').replace(' imp:n=0', '') + 'imp:n 1 2i 1 0\n'),
+    ('upper-case M card', lambda t: t.replace('m1 1001', 'M1 1001')),
+    ('blanks around the union colon', lambda t: t.replace('5 0 2 imp', '5 0 2 : 2 imp')),
+    ('explicit plus sign', lambda t: t.replace('5 0 2 imp', '5 0 +2 imp')),
+    ('surface parameter 5.', lambda t: t.replace('1 so 5.0', '1 so 5.')),
+    ('surface parameter 0.5e1', lambda t: t.replace('1 so 5.0', '1 so 0.5e1')),
+    ('surface parameter +5.0', lambda t: t.replace('1 so 5.0', '1 so +5.0')),
+]
+
+
+def run_corpus(res):
+    base = outcome(convert(CORPUS_BASE))
+    res.count('corpus:base:' + str(base[0]))
+    for label, rewrite in CORPUS:
+        text = rewrite(CORPUS_BASE)
+        res.seen(text)
+        ok = compare(CORPUS_BASE, base, text,
+                     {'used': ['corpus: ' + label], 'stream': 'corpus'}, True, res)
+        res.count('corpus:' + ('same' if ok else 'differs'))
+
+
 def run(res, tier, seed, proofs_ok):
+    del I.HANGS[:]
+    try:
+        run_all(res, tier, seed)
+    except I.TooManyHangs as exc:
+        res.obligation('implementation calls return', False, str(exc))
+        res.violation('impl-violation', 'the front end does not terminate: '
+                      + str(exc),
+                      {'input': {'function': I.HANGS[0][0], 'text': I.HANGS[0][1],
+                                 'deck': I.HANGS[0][1], 'rewrite': I.HANGS[0][1]}},
+                      found_input=True)
+
+
+def run_all(res, tier, seed):
     rng = random.Random(seed)
     res.rule = ('(a) every string up to a length over small alphabets for each '
                 're-implemented regex/str method; (b) all line sequences from '
@@ -579,6 +671,7 @@ def run(res, tier, seed, proofs_ok):
                 'spellings) + malformed texts; non-trivial = text differs from '
                 'the canonical rendering / >= 2 lines')
     run_witnesses(res)
+    run_corpus(res)
     # the Python side of the three ties first, then their Coq files run in the
     # background while the sweep converts decks
     from concurrent.futures import ThreadPoolExecutor
